@@ -1642,6 +1642,9 @@ class SecurityBase(Node):
             hi = lo + step
         while hi - lo > 1:
             mid = math.floor((lo + hi) / 2)
+            if mid <= lo or mid >= hi:
+                # quantities this large are further apart than one unit
+                break
             if fits(mid):
                 lo = mid
             else:
